@@ -518,6 +518,24 @@ func (H) Gen(prop string, seed uint64, tier string) *hx.Case {
 		if fork := best.Ancestor(best.Height - d); fork != nil && int(fork.Height) >= cfg.plen() {
 			cur, bad := fork, r.Range(2, int(d)+1)
 			second := r.Chance(0.5) // peers send the whole branch a second time later
+			if prop == "C06" && r.Chance(0.5) {
+				// one or two blocks on top of the active chain are known by their headers only (announced, never
+				// sent) when the reorganisation fails: they must not be where the node tries to go back to
+				hc := best
+				for k := 0; k < 1+r.Intn(2); k++ {
+					b, ok := m.Build(hc, ledger.BlockOpts{NTx: r.Intn(2)})
+					if !ok {
+						break
+					}
+					n := l.Add(b, 1<<40)
+					if n == nil || !n.Valid() {
+						break
+					}
+					b.Label = "header-only"
+					cfg.Blocks = append(cfg.Blocks, b)
+					hc = n
+				}
+			}
 			for j := 1; j <= int(d)+1+r.Intn(2); j++ {
 				o := ledger.BlockOpts{NTx: r.Range(1, 4)}
 				if j == bad {
@@ -574,6 +592,10 @@ func (H) Gen(prop string, seed uint64, tier string) *hx.Case {
 		if r.Chance(0.04) {
 			lost = append(lost, bi)
 			continue // lost for now (most histories deliver them late, see below)
+		}
+		if cfg.Blocks[bi].Label == "header-only" {
+			add(Op{Op: "header", B: bi})
+			continue
 		}
 		add(Op{Op: "deliver", B: bi})
 		if r.Chance(0.07) {
@@ -887,7 +909,7 @@ func (r *run) deliver(bi int, when string) {
 	blk := r.cfg.Blocks[bi]
 	hh := blk.Hash()
 	ln := r.nodes[bi]
-	if ln == nil {
+	if ln == nil || r.status[ln.Hash] == 4 {
 		return
 	}
 	tipBefore, _ := r.n.Tip()
@@ -1206,6 +1228,15 @@ func (H) Run(t *testing.T, c *hx.Case) *hx.Outcome {
 			switch o.Op {
 			case "deliver":
 				r.deliver(o.B, fmt.Sprintf("op#%d deliver block[%d]", o.ID, o.B))
+			case "header":
+				// a peer announces the block by its header; the block itself is never sent
+				if o.B < len(cfg.Blocks) && r.nodes[o.B] != nil && r.status[r.nodes[o.B].Hash] == 0 {
+					if err := r.n.Header(cfg.Blocks[o.B].Bytes()); err == nil {
+						r.status[r.nodes[o.B].Hash] = 4 // known by header only: never part of the expected chain
+						r.out.Probe("header_only_node", 1)
+					}
+					r.compareState(when)
+				}
 			case "idle":
 				if r.n.Ch.Idle() {
 					r.out.Probe("idle_started_save", 1)
